@@ -259,6 +259,8 @@ def rule_sanitised(c, rule, fn, expect_objects):
                 continue
             if cn in ("free", "E1_read_bytes") and obj not in args:
                 continue  # another element of the same array is being filled / the array is released
+            if any(call is oc for (_, oc, _) in objs.values()) and obj not in args:
+                continue  # the parse site (a reading helper) of another element of the same array
             if cn == "free":
                 continue
             nsink += 1
@@ -300,6 +302,12 @@ def rule_C01(c):
     c.floor("C01.R7", 20)
     rule_object_extents(c, "C01.R7")
     # R6: the signature reader is canonical (one accepted string per point): same rules as C05.R1/R2 on E1_read_bytes
+    # R12: plain / Montgomery representations of scalars never mix (dimension analysis over the glue)
+    c.floor("C01.R12", 10)
+    rule_montgomery_degrees(c, "C01.R12")
+    # R11: INVALID only for the causes the property names
+    c.floor("C01.R11", 2)
+    rule_reject_provenance(c, "C01.R11", ("bls_verify", "bls_verify_E1"))
     # R9: rejected inputs are reported with the INVALID code (never with a code the Go layer turns into an error)
     c.floor("C01.R9", 3)
     rule_verdict_codes(c, "C01.R9")
@@ -338,6 +346,9 @@ def rule_C02(c):
     c.floor("C02.R1", 8)
     c.floor("C02.R4", 2)
     c.floor("C02.R5", 3)
+    # R9: INVALID only for the causes the property names
+    c.floor("C02.R9", 2)
+    rule_reject_provenance(c, "C02.R9", ("bls_verifyPerDistinctMessage", "bls_verifyPerDistinctKey"))
     # R8: rejected signatures are reported as INVALID (false, nil), never through a code the Go layer turns into an error
     c.floor("C02.R8", 2)
     rule_verdict_codes(c, "C02.R8", only=("bls_verifyPerDistinct",))
@@ -465,7 +476,20 @@ def rule_C02(c):
                     "a pair with an infinity operand can be copied into the Miller loop", facts)
         fe = g.calls("final_exp")
         so = g.calls("Fp12_set_one")
-        okk = bool(fe) and bool(so) and "init_flag == 0" in g.resolved_facts(so[0][0])
+        # the flag that records "a Miller loop output was accumulated": whatever local is tested == 0 before the
+        # set-one and is set to a non-zero constant only right after a Miller loop
+        okk = False
+        if fe and so:
+            ml = [n_ for n_, _ in g.calls("miller_loop_n")]
+            for f_ in g.resolved_facts(so[0][0]):
+                m_ = re.match(r"^(\w+) == 0$", f_)
+                if not m_:
+                    continue
+                v_ = m_.group(1)
+                sets = [n_ for n_ in g.nodes if n_.kind == "stmt" and n_.expr is not None and re.match(r"^\(?%s = [1-9]\d*\)?$" % re.escape(v_), g.r(n_.expr))]
+                init0 = any(n_.kind == "decl" and n_.tag == v_ and n_.expr is not None and g.r(n_.expr) == "0" for n_ in g.nodes)
+                if sets and init0 and all(any(g.dominates(m2, s_) for m2 in ml) for s_ in sets):
+                    okk = True
         c.check(okk, "C02.R4", "Fp12_multi_pairing/empty-product", c.p.pos(g.f), "empty product is set to one before the final exponentiation", "result is not initialised to one when every pair was skipped")
     rule_pairing_flush(c, "C02.R4")
 
@@ -531,6 +555,9 @@ def rule_C17(c):
     # R4: keys and proofs are handed to the pairing as affine points only after a conversion (= C04.R5)
     c.floor("C17.R4", 2)
     rule_affine_casts(c, "C17.R4")
+    # R6: INVALID only for the causes the property names
+    c.floor("C17.R6", 1)
+    rule_reject_provenance(c, "C17.R6", ("bls_spock_verify",))
     # R5: rejected proofs / keys are reported as INVALID (false, nil), never through a code the Go layer turns into an error
     c.floor("C17.R5", 1)
     rule_verdict_codes(c, "C17.R5", only=("bls_spock_verify",))
@@ -549,16 +576,25 @@ def rule_C17(c):
         # (which object was parsed from which proof is taken from the parse sites found above, wherever they sit)
         for obj, need in parsed.items():
             ev = ev + [need[0][:-len(" == VALID")]]
-        want = ["E1_read_bytes(elemsG1, %s, 48)" % sig1, "E1_read_bytes(&elemsG1[1], %s, 48)" % sig2,
-                "E2_neg(elemsG2, %s)" % pk2, "E2_copy(&elemsG2[1], %s)" % pk1]
-        missing = [w for w in want if w not in ev]
+        # the arrays handed to the one multi-pairing call, and the product object, whatever they are called
+        mp = g.calls("Fp12_multi_pairing")
+        mm_ = re.match(r"^Fp12_multi_pairing\(&(\w+), (\w+), (\w+), 2\)$", g.r(mp[0][1])) if len(mp) == 1 else None
+        c.check(bool(mm_), "C17.R1", "bls_spock_verify/pairing-call", c.p.pos(g.f), "2-pairing", "multi-pairing call changed: " + (g.r(mp[0][1]) if mp else "none"))
+        prod, P_, Q_ = (mm_.group(1), mm_.group(2), mm_.group(3)) if mm_ else ("e", "elemsG1", "elemsG2")
+        # slot 0 of the G2 array holds -pk2: negated in place, or negated into a local that is then copied there
+        neg_ok = "E2_neg(%s, %s)" % (Q_, pk2) in ev
+        if not neg_ok:
+            for e_ in ev:
+                m2 = re.match(r"^E2_neg\(&(\w+), %s\)$" % re.escape(pk2), e_)
+                if m2 and "E2_copy(%s, &%s)" % (Q_, m2.group(1)) in ev:
+                    neg_ok = True
+        want = ["E1_read_bytes(%s, %s, 48)" % (P_, sig1), "E1_read_bytes(&%s[1], %s, 48)" % (P_, sig2), "E2_copy(&%s[1], %s)" % (Q_, pk1)]
+        missing = [w for w in want if w not in ev] + ([] if neg_ok else ["%s[0] = -%s" % (Q_, pk2)])
         c.check(not missing, "C17.R1", "bls_spock_verify/operands", c.p.pos(g.f), "pairs are (p1,-pk2) and (p2,pk1)", "SPoCK pairing operands changed: missing " + ", ".join(missing))
         for n in g.nodes:
             if g.valid_accept_facts(n) is not None:
                 facts = g.valid_accept_facts(n)
-                c.check("Fp12_is_one(&e) != 0" in facts, "C17.R1", "bls_spock_verify/accept", c.pos(g, n), "VALID only when the pairing product is one", "VALID returned without the pairing product being one", facts)
-        mp = g.calls("Fp12_multi_pairing")
-        c.check(len(mp) == 1 and g.r(mp[0][1]) == "Fp12_multi_pairing(&e, elemsG1, elemsG2, 2)", "C17.R1", "bls_spock_verify/pairing-call", c.p.pos(g.f), "2-pairing", "multi-pairing call changed")
+                c.check("Fp12_is_one(&%s) != 0" % prod in facts, "C17.R1", "bls_spock_verify/accept", c.pos(g, n), "VALID only when the pairing product is one", "VALID returned without the pairing product being one", facts)
 
 
 # ------------------------------------------------------------------ C03
@@ -1072,12 +1108,40 @@ def rule_C04(c):
         w = g.calls("E1_write_bytes")
         if w:
             facts = g.resolved_facts(w[0][0])
-            c.check(any(f.startswith("i >= ") for f in facts) and g.r(w[0][1]["inner"][1]) == out, "C04.R3", "E1_sum_vector_byte/write-after-all-read", c.pos(g, w[0][0]), "output written after the read loop finished", "output is written before all inputs were read", facts)
+            c.check(any(re.match(r"^i(__\w+)? >= ", f) or re.match(r"^\w+\(.*\) == VALID$", f) for f in facts) and g.r(w[0][1]["inner"][1]) == out, "C04.R3", "E1_sum_vector_byte/write-after-all-read", c.pos(g, w[0][0]), "output written after the read loop finished", "output is written before all inputs were read", facts)
         sv = g.calls("E1_sum_vector")
         okk = bool(sv) and g.r(sv[0][1]["inner"][2]) == "vec" and g.r(sv[0][1]["inner"][3]) == "n"
         c.check(okk, "C04.R3", "E1_sum_vector_byte/sum-range", c.p.pos(g.f), "sum runs over all n parsed points", "sum does not cover the n parsed points")
         rd = [(n_, call) for n_, call in g.calls("E1_read_bytes")]
-        okk = bool(rd) and reads_at_stride(c, g, g.r(rd[0][1]["inner"][2]), inb, "i", 48)
+        # the loop counter: whatever indexes the destination element of the read (`&vec[k]`), also when the loop was moved
+        # into a helper analysed in place (its locals carry a suffix)
+        cnt_ = "i"
+        if rd:
+            mcnt = re.search(r"\[(\w+)\]\)?$", g.r(rd[0][1]["inner"][1]))
+            if mcnt:
+                cnt_ = mcnt.group(1)
+        okk = bool(rd) and reads_at_stride(c, g, g.r(rd[0][1]["inner"][2]), inb, cnt_, 48)
+        if not rd:
+            # the read loop sits in a helper that could not be analysed in place: judged there, with the helper's parameter
+            # that receives the input buffer
+            for n_, call in g.calls():
+                hn = callee_name(call)
+                if hn not in c.p.funcs or hn in ("E1_sum_vector", "E1_write_bytes"):
+                    continue
+                hps = [p_["name"] for p_ in c.p.params(hn)]
+                hargs = [g.r(a_) for a_ in call["inner"][1:]]
+                if inb not in hargs or len(hps) != len(hargs):
+                    continue
+                try:
+                    gh = c.p.cfg(hn)
+                except cast.Unsupported:
+                    continue
+                rdh = gh.calls("E1_read_bytes")
+                if not rdh:
+                    continue
+                hsrc = hps[hargs.index(inb)]
+                mcnt = re.search(r"\[(\w+)\]\)?$", gh.r(rdh[0][1]["inner"][1]))
+                okk = reads_at_stride(c, gh, gh.r(rdh[0][1]["inner"][2]), hsrc, mcnt.group(1) if mcnt else "i", 48)
         c.check(okk, "C04.R3", "E1_sum_vector_byte/stride", c.p.pos(g.f), "i-th point read at offset 48·i", "i-th point is not read at offset 48·i")
 
 
@@ -1367,7 +1431,28 @@ def rule_reader_header(c, rule, readers):
                 c.check(okk, rule, "%s/accept:%s/%s" % (fn, br, nd), c.pos(g, n), "validation step dominates acceptance", "%s accepts (%s branch) without `%s…` being established" % (fn, br, nd), facts)
         ev = path_events(g, g.nodes)
         # header bits are cleared on the copy that is range-checked; sign bit taken from bit 5 and applied
-        c.check("temp[0] &= 31" in " ".join(compound_events(g)) , rule, fn + "/mask-header", c.p.pos(g.f), "header bits masked before the coordinate is range-checked", "header bits are not masked (31) on the coordinate copy")
+        # by role: the buffer handed to the field reader; its byte 0 is `&= 31`-ed after the copy, or assigned
+        # `in[0] & 31` (the constant possibly held in a const local)
+        masked = "temp[0] &= 31" in " ".join(compound_events(g))
+        bufs = set()
+        for n_, call_ in g.calls(fpread):
+            args_ = call_.get("inner", [])[1:]
+            if len(args_) >= 2:
+                bufs.add(g.r(args_[1]))
+        for n_ in g.nodes:
+            if n_.expr is None:
+                continue
+            for x_ in walk(n_.expr):
+                if x_.get("kind") == "CompoundAssignOperator" and x_.get("opcode") == "&=" and g.r(x_["inner"][0]) in ["%s[0]" % b_ for b_ in bufs] and _const_at(c, g, x_["inner"][1], n_) == 31:
+                    masked = True
+                if x_.get("kind") == "BinaryOperator" and x_.get("opcode") == "=" and g.r(x_["inner"][0]) in ["%s[0]" % b_ for b_ in bufs]:
+                    rhs_ = strip(x_["inner"][1])
+                    if rhs_.get("kind") == "BinaryOperator" and rhs_.get("opcode") == "&":
+                        l_, r_ = rhs_["inner"]
+                        for a_, k_ in ((l_, r_), (r_, l_)):
+                            if g.r(a_) == "%s[0]" % inb and _const_at(c, g, k_, n_) == 31:
+                                masked = True
+        c.check(masked, rule, fn + "/mask-header", c.p.pos(g.f), "header bits masked before the coordinate is range-checked", "header bits are not masked (31) on the coordinate copy")
         c.check(any(e.startswith("y_sign = ((%s[0] >> 5) & 1)" % inb) for e in ev), rule, fn + "/sign-bit", c.p.pos(g.f), "sign bit is bit 5 of the first byte", "sign bit is not read from bit 5 of the header byte")
 
 
@@ -1632,7 +1717,44 @@ def rule_C05(c):
         ev = path_events(g, g.nodes)
         okk = ("memset(%s, 0, %d)" % (out, N) in ev) or ("memset(&%s[1], 0, %d)" % (out, N - 1) in ev)
         c.check(okk, "C05.R3", fn + "/infinity-all-bytes", c.p.pos(g.f), "infinity encoding zeroes every byte after the header", "infinity encoding does not clear all %d bytes" % N)
-        c.check(any(e.startswith("%s[0] = 192" % out) or e.startswith("%s[0] = ((1 << 7) | (1 << 6))" % out) for e in ev), "C05.R3", fn + "/infinity-header", c.p.pos(g.f), "infinity header is compression|infinity (0xC0)", "infinity header byte is not 0xC0")
+        # the header byte written on the infinity path evaluates to 0xC0 (locals holding header bits are followed to their
+        # reaching definitions)
+        hdr_ok = any(e.startswith("%s[0] = 192" % out) or e.startswith("%s[0] = ((1 << 7) | (1 << 6))" % out) for e in ev)
+        if not hdr_ok:
+            for n_ in g.nodes:
+                if n_.kind != "stmt" or n_.expr is None:
+                    continue
+                x_ = strip(n_.expr)
+                if x_.get("kind") == "BinaryOperator" and x_.get("opcode") == "=" and g.r(x_["inner"][0]) == "%s[0]" % out:
+                    facts_ = g.resolved_facts(n_)
+                    if not any(f_.startswith(("E1_is_infty(", "E2_is_infty(")) and f_.endswith("!= 0") for f_ in facts_):
+                        continue
+                    if _const_at(c, g, x_["inner"][1], n_) == 0xC0:
+                        hdr_ok = True
+        c.check(hdr_ok, "C05.R3", fn + "/infinity-header", c.p.pos(g.f), "infinity header is compression|infinity (0xC0)", "infinity header byte is not 0xC0")
+
+
+def _const_at(c, g, e, n, depth=0):
+    """integer value of e at node n, with locals replaced by the constant their reaching definition assigns"""
+    v = const_eval(e, c.p.enums)
+    if v is not None or depth > 4:
+        return v
+    e = strip(e)
+    k = e.get("kind")
+    if k == "DeclRefExpr" and e["referencedDecl"].get("kind") == "VarDecl":
+        d = g.def_of(e["referencedDecl"]["name"], n)
+        rhs = g.rhs_of(d, e["referencedDecl"]["name"]) if d is not None else None
+        return _const_at(c, g, rhs, d, depth + 1) if rhs is not None else None
+    if k == "BinaryOperator" and e.get("opcode") in ("|", "&", "+", "-", "<<", ">>", "^", "*"):
+        a = _const_at(c, g, e["inner"][0], n, depth + 1)
+        b = _const_at(c, g, e["inner"][1], n, depth + 1)
+        if a is None or b is None:
+            return None
+        return {"|": a | b, "&": a & b, "+": a + b, "-": a - b, "<<": a << b, ">>": a >> b, "^": a ^ b, "*": a * b}[e["opcode"]]
+    if k in ("ParenExpr", "ImplicitCastExpr", "CStyleCastExpr"):
+        inner = [x for x in e.get("inner", []) if isinstance(x, dict)]
+        return _const_at(c, g, inner[-1], n, depth + 1) if inner else None
+    return None
 
 
 def compound_events(g):
@@ -1735,6 +1857,66 @@ def rule_no_index_narrowing(c, rule, fns):
             c.ok(rule, fn + "/no-narrowing", c.p.pos(fd), "no counter or length is narrowed to 8/16 bits")
 
 
+INT_WIDTHS = {"limb_t": 64, "unsigned long": 64, "long": 64, "uint64_t": 64, "unsigned long long": 64, "long long": 64, "size_t": 64,
+              "unsigned int": 32, "unsigned": 32, "int": 32, "uint32_t": 32, "short": 16, "unsigned short": 16, "uint16_t": 16,
+              "byte": 8, "unsigned char": 8, "uint8_t": 8, "char": 8, "signed char": 8}
+
+
+def _int_width(t):
+    q = (t or {}).get("desugaredQualType") or (t or {}).get("qualType") or ""
+    q = re.sub(r"^const\s+", "", q)
+    return INT_WIDTHS.get(q), q
+
+
+def rule_no_limb_narrowing(c, rule, fns):
+    """Agreement between a producer of 64-bit quantities and the helper that consumes them: in the functions that batch
+    small integers into one machine limb (products of up to eight 8-bit indices, evaluation points) no non-constant
+    64-bit value is implicitly converted to a narrower integer — at a call whose parameter was declared narrower, in an
+    assignment or a return. The C compiler performs such a conversion silently; the value keeps its low bits, and only
+    inputs whose product exceeds the narrower type notice (large groups, high indices)."""
+    for fn in fns:
+        fd = c.p.funcs.get(fn)
+        if fd is None:
+            c.und(rule, "anchor:" + fn, "?", "unresolved anchor: C function %s" % fn)
+            continue
+        bad = 0
+        for e in walk(fd):
+            if e.get("kind") != "ImplicitCastExpr" or e.get("castKind") != "IntegralCast":
+                continue
+            inner = [x for x in e.get("inner", []) if isinstance(x, dict)]
+            if not inner or const_eval(inner[-1], c.p.enums) is not None:
+                continue
+            src = strip(inner[-1])
+            if src.get("kind") == "UnaryExprOrTypeTraitExpr":
+                continue  # sizeof: a compile-time constant
+            tw, tq = _int_width(e.get("type"))
+            sw, sq = _int_width(src.get("type"))
+            if not (tw and sw and sw == 64 and tw < 64):
+                continue
+            if not any(x.get("kind") == "DeclRefExpr" and x.get("referencedDecl", {}).get("kind") in ("VarDecl", "ParmVarDecl") for x in walk(inner[-1])):
+                continue
+            bad += 1
+            txt = R(c.p.enums)(inner[-1])
+            c.viol(rule, "%s/limb-narrowed:%s->%s" % (fn, txt[:40], tq), "%s:%s" % (c.p.where.get(fn, "?"), e.get("_line")),
+                   "in %s the %d-bit value `%s` (%s) is implicitly converted to %s (%d bits): only its low bits survive, so batches whose product reaches 2^%d give a wrong field element (large groups / high indices only)" % (fn, sw, txt, sq, tq, tw, tw))
+        if not bad:
+            c.ok(rule, fn + "/no-limb-narrowing", c.p.pos(fd), "no non-constant 64-bit value is implicitly narrowed (call arguments, assignments, returns)")
+    # the consumer: the helper that turns a limb into a field element takes a full limb
+    fn = "Fr_set_limb"
+    ps = c.p.params(fn) if (fn in c.p.funcs or fn in c.p.protos) else []
+    if len(ps) < 2:
+        c.und(rule, "anchor:" + fn, "?", "unresolved anchor: Fr_set_limb(Fr*, limb)")
+    else:
+        w_, q = _int_width(ps[1].get("type"))
+        c.check(w_ == 64, rule, fn + "/limb-parameter", c.p.pos(c.p.funcs.get(fn) or c.p.protos.get(fn)), "Fr_set_limb takes a 64-bit limb", "Fr_set_limb's value parameter is `%s`, not a 64-bit limb: callers batch up to 64 bits into it" % q)
+        fd = c.p.funcs.get(fn)
+        if fd is not None:
+            # the store into the element keeps the full width
+            nar = [e for e in walk(fd) if e.get("kind") in ("ImplicitCastExpr", "CStyleCastExpr") and e.get("castKind") == "IntegralCast"
+                   and (_int_width(e.get("type"))[0] or 64) < 64]
+            c.check(not nar, rule, fn + "/limb-stored-whole", c.p.pos(fd), "the limb is stored without narrowing", "Fr_set_limb narrows its value before storing it")
+
+
 def rule_paired_indexing(c, rule, fn, a_param_idx, b_param_idx):
     """Two arrays that are consumed pairwise (points and their scalars) are indexed by the same variables: every variable
     that positions the reads of one must position the reads of the other, except the counter of a loop that only walks one
@@ -1788,6 +1970,9 @@ def rule_C06(c):
     # R10: the Horner evaluations behind private and public shares have one shape
     c.floor("C06.R10", 8)
     rule_horner(c, "C06.R10")
+    # R12: limb producers and the limb consumer agree on 64 bits
+    c.floor("C06.R12", 5)
+    rule_no_limb_narrowing(c, "C06.R12", ["Fr_lagrange_coeff_at_zero", "E1_lagrange_interpolate_at_zero", "Fr_polynomial_image", "E2_polynomial_images"])
     # R7: the multi-scalar multiplication behind the interpolation pairs point k with coefficient k
     c.floor("C06.R7", 1)
     rule_paired_indexing(c, "C06.R7", "E1_multi_scalar", 1, 2)
@@ -1834,14 +2019,22 @@ def rule_C06(c):
         # inner loop bound uses k + loops, and j==i skipped, sign toggled exactly under indices[j] < indices[i]
         conds = [cond_text(b) for b in g.nodes if b.kind == "branch"]
         c.check(loops is not None and any(re.search(r"\(\w+ \+ (%s|\w+)\)" % loops, s) and "(%s + 1)" % degree in s and "?" in s for s in conds), "C06.R4", fn + "/batch-bound", c.p.pos(g.f), "inner loop runs to min(degree+1, k+loops)", "inner batch bound is not min(degree+1, k+loops): %s" % conds)
+        # the accumulators by role: what is handed to Fr_set_limb in this function; the sign: the variable toggled with ^=
+        accs = set()
+        for n_, call_ in g.calls("Fr_set_limb"):
+            args_ = [a_ for a_ in call_.get("inner", [])[1:]]
+            if len(args_) >= 2:
+                accs.add(g.r(args_[1]))
+        if not accs:
+            accs = {"limb_denominator", "limb_numerator"}
         for n in g.nodes:
             if n.expr is None:
                 continue
             for x in walk(n.expr):
-                if x.get("kind") == "CompoundAssignOperator" and g.r(x["inner"][0]) == "sign":
+                if x.get("kind") == "CompoundAssignOperator" and (g.r(x["inner"][0]) == "sign" or x.get("opcode") == "^="):
                     facts = g.resolved_facts(n)
                     c.check("%s[j] < %s[%s]" % (indices, indices, i) in facts and "j != %s" % i in facts, "C06.R4", fn + "/sign-toggle", c.pos(g, n), "sign toggles exactly when indices[j] < indices[i], j ≠ i", "sign of the denominator toggles under the wrong condition", facts)
-                if x.get("kind") == "CompoundAssignOperator" and g.r(x["inner"][0]) in ("limb_denominator", "limb_numerator"):
+                if x.get("kind") == "CompoundAssignOperator" and g.r(x["inner"][0]) in accs:
                     facts = g.resolved_facts(n)
                     c.check("j != %s" % i in facts, "C06.R4", fn + "/skip-self:" + g.r(x["inner"][0]), c.pos(g, n), "own index skipped", "own index is not skipped in the product", facts)
     fn = "E1_lagrange_interpolate_at_zero_write"
@@ -1988,12 +2181,17 @@ def rule_horner(c, rule):
         br = [s_ for s_ in h.succ if s_ is not None and s_.kind == "branch"]
         m = re.match(r"^\(?(\w+) >= 0\)?$", g.r(br[0].expr)) if br else None
         cnt = m.group(1) if m else None
-        init = [n for n in g.nodes if n.kind == "decl" and n.tag == cnt and n.expr is not None] if cnt else []
-        inc = [n for n in g.nodes if n.kind == "stmt" and n.tag == "inc" and h in n.succ]
-        ok_range = bool(cnt) and len(init) == 1 and g.r(init[0].expr) == deg and len(inc) == 1 and g.r(inc[0].expr) in ("(%s--)" % cnt, "(--%s)" % cnt, "%s--" % cnt)
+        # the counter starts at `degree` (its last definition before the loop) and is decremented exactly once per iteration,
+        # in the `for` header or as a statement of the body (`while` form)
+        init_e = g.loop_init(h, cnt) if cnt else None
+        dec_forms = ("(%s--)" % cnt, "(--%s)" % cnt, "%s--" % cnt, "--%s" % cnt, "(%s -= 1)" % cnt, "%s -= 1" % cnt, "(%s = (%s - 1))" % (cnt, cnt), "%s = (%s - 1)" % (cnt, cnt))
+        in_loop = [n for n in g.nodes if n.kind == "stmt" and g.dominates(h, n) and h.id in g.reach_from(n)]
+        decs = [n for n in in_loop if n.expr is not None and g.r(n.expr) in dec_forms]
+        others = [n for n in in_loop if n not in decs and n.expr is not None and cnt in g.writes(n)] if cnt else []
+        ok_range = bool(cnt) and init_e is not None and g.r(init_e) == deg and len(decs) == 1 and not others
         c.check(ok_range, rule, fn + "/range", c.p.pos(g.f), "coefficients degree..0 are all consumed, highest first",
-                "the Horner loop of %s does not run its counter from `%s` down to 0 inclusive (condition `%s`): a coefficient is skipped or the order changes" % (fn, deg, g.r(br[0].expr) if br else "?"))
-        body = [n for n in g.nodes if n.kind == "stmt" and n.tag != "inc" and g.dominates(h, n) and h.id in g.reach_from(n)]
+                "the Horner loop of %s does not run its counter from `%s` down to 0 inclusive with one decrement per iteration (condition `%s`): a coefficient is skipped or the order changes" % (fn, deg, g.r(br[0].expr) if br else "?"))
+        body = [n for n in in_loop if n not in decs]
         ev = path_events(g, body)
         want_mul = re.compile(r"^%s\(%s, %s, (.+)\)$" % (mul, re.escape(acc), re.escape(acc)))
         want_add = "%s(%s, %s, &%s[%s])" % (add, acc, acc, coef, cnt)
@@ -2001,7 +2199,7 @@ def rule_horner(c, rule):
         ok_body = len(ev) == 2 and bool(mm) and ev[1] == want_add
         c.check(ok_body, rule, fn + "/step", c.p.pos(g.f), "each iteration: accumulator = accumulator * point, then + coefficient[counter]",
                 "the loop body of %s is not `acc = acc*point; acc += %s[%s]`: %s" % (fn, coef, cnt, "; ".join(ev)))
-        pre = path_events(g, [n for n in g.nodes if n.kind in ("stmt", "decl") and n not in body and n.tag != "inc" and h.id in g.reach_from(n) and not g.dominates(h, n)])
+        pre = path_events(g, [n for n in g.nodes if n.kind in ("stmt", "decl") and n not in body and n not in decs and h.id in g.reach_from(n) and not g.dominates(h, n)])
         c.check("%s(%s)" % (zero, acc) in pre, rule, fn + "/start", c.p.pos(g.f), "accumulator starts at the neutral element", "the accumulator `%s` is not reset with %s before the loop" % (acc, zero))
         if mm:
             mult = mm.group(1)
@@ -2014,10 +2212,281 @@ def rule_horner(c, rule):
         shapes[fn] = (ok_range, ok_body)
         if fn.startswith("Fr_"):
             y = ps[1]
-            post = path_events(g, [n for n in g.nodes if n.kind == "stmt" and not g.dominates(h, n) or (n.kind == "stmt" and n not in body and n.tag != "inc" and g.dominates(h, n))])
+            post = path_events(g, [n for n in g.nodes if n.kind == "stmt" and not g.dominates(h, n) or (n.kind == "stmt" and n not in body and n not in decs and g.dominates(h, n))])
             c.check("G2_mult_gen(%s, %s)" % (y, acc) in post, rule, fn + "/public-share", c.p.pos(g.f), "public share = generator * image", "the public share written to `%s` is not G2_mult_gen of the image just computed" % y)
     if len(shapes) == 2:
         c.check(all(all(v) for v in shapes.values()), rule, "siblings/horner-shape", "dkg_core.c", "private and public share evaluations walk the coefficients alike", "the Fr and E2 polynomial evaluations no longer have the same Horner shape: shares and the public data derived from the verification vector disagree")
+
+
+# ------------------------------------------------------------------ Montgomery degree (dimension) analysis: C01.R12
+
+# Every F_r value of the glue is stored as v·R^k for a statically known k ("degree"): 0 = plain, 1 = Montgomery form.
+# Z = the zero element (any degree), T = unknown / conflicting.  The arithmetic primitives shift degrees
+# (mul_montg: ka+kb-1, to_montg: +1, from_montg: -1, inverse: 1-k), additions and comparisons need equal degrees, and every
+# consumer outside the arithmetic (serialisation, scalar multiplication, the Go side) needs degree 0.
+MD_Z, MD_T = "Z", "T"
+MD_CONST = {"BLS12_381_rR": 1, "BLS12_381_rRR": 2}
+# reviewed exception: uses R as the radix 2^256 of the byte string (value-level), ends with from_montg; result is plain
+MD_TRUSTED_OUT0 = {"Fr_from_be_bytes": (0,), "map_bytes_to_Fr": (0,), "Fr_read_bytes": (0,), "Fr_star_read_bytes": (0,)}
+MD_PRIMS = ("Fr_is_zero", "Fr_is_equal", "Fr_set_limb", "Fr_copy", "Fr_set_zero", "Fr_add", "Fr_sub", "Fr_neg", "Fr_mul_montg", "Fr_squ_montg",
+            "Fr_to_montg", "Fr_from_montg", "Fr_inv_montg_eucl", "Fr_from_be_bytes")
+
+
+def _md_join(a, b):
+    if a == b:
+        return a
+    if a is None:
+        return b
+    if b is None:
+        return a
+    if a == MD_Z:
+        return b
+    if b == MD_Z:
+        return a
+    return MD_T
+
+
+def _md_path(s):
+    s = s.strip()
+    while True:
+        m = re.match(r"^\(\s*(?:const\s+)?\w+\s*\*\s*\)\s*(.*)$", s)
+        if not m:
+            break
+        s = m.group(1)
+    s = s.lstrip("&*").strip()
+    s = s.strip("()")
+    s = re.sub(r"\[[^\]]*\]", "[]", s)
+    return s
+
+
+def rule_montgomery_degrees(c, rule):
+    n_ops = 0
+    summaries = {}      # fn -> {param index: degree at exit} for non-const F_r parameters
+    in_progress = set()
+    fr_ptr = lambda t: re.match(r"^(const )?Fr \*?(const)?$|^(const )?Fr ?\[.*\]$", t.strip()) is not None or t.strip() in ("Fr *", "const Fr *", "const Fr *const", "Fr *const")
+    def analyse(fn, emit):
+        nonlocal n_ops
+        if fn in MD_PRIMS or fn in MD_TRUSTED_OUT0 or fn not in c.p.funcs:
+            return
+        if not emit and (fn in summaries or fn in in_progress):
+            return
+        in_progress.add(fn)
+        try:
+            _analyse(fn, emit)
+        finally:
+            in_progress.discard(fn)
+
+    def _analyse(fn, emit):
+        nonlocal n_ops
+        fd = c.p.funcs[fn]
+        # only functions that touch F_r arithmetic / values
+        uses = any(callee_name(x) and (callee_name(x).startswith("Fr_") or callee_name(x) in ("pow256_from_Fr",)) for x in walk(fd) if x.get("kind") == "CallExpr")
+        params = c.p.params(fn)
+        fr_params = [p_ for p_ in params if fr_ptr(p_["type"]["qualType"])]
+        if not uses and not fr_params:
+            summaries[fn] = {}
+            return
+        try:
+            g = c.p.cfg(fn)
+        except cast.Unsupported:
+            summaries[fn] = {}
+            return
+        init = {}
+        outs = []
+        for p_ in fr_params:
+            qt = p_["type"]["qualType"]
+            if qt.strip().startswith("const"):
+                init[p_["name"]] = 0
+            else:
+                init[p_["name"]] = MD_T
+                outs.append(p_["name"])
+        for k_, v_ in MD_CONST.items():
+            init[k_] = v_
+        preds = {n.id: [] for n in g.nodes}
+        for n in g.nodes:
+            for s_ in n.succ:
+                if s_ is not None:
+                    preds[s_.id].append(n)
+        state_in, state_out = {}, {}
+        reports = {}
+
+        def deg(st, arg):
+            pth = _md_path(g.r(arg))
+            if pth in st:
+                return st[pth], pth
+            # element of an array parameter / local: same as the array
+            base = pth.split("[")[0]
+            if base in st:
+                return st[base], pth
+            if base + "[]" in st:
+                return st[base + "[]"], pth
+            return None, pth
+
+        def setd(st, arg, d):
+            pth = _md_path(g.r(arg))
+            base = pth.split("[")[0]
+            if pth.endswith("[]") and base in st and st[base] not in (None, d):
+                st[pth] = _md_join(st.get(pth), d)
+            st[pth] = d
+            if "[" in pth:
+                st[base + "[]"] = d if st.get(base + "[]") in (None, d, MD_T) else _md_join(st[base + "[]"], d)
+
+        def need(ok, key, node, msg):
+            reports.setdefault(key, (ok, c.pos(g, node), msg))
+            if not ok:
+                reports[key] = (False, c.pos(g, node), msg)
+
+        def shift(d, f):
+            if d in (None, MD_T):
+                return MD_T
+            if d == MD_Z:
+                return MD_Z
+            return f(d)
+
+        def transfer(n, st, check):
+            st = dict(st)
+            exprs = []
+            if n.expr is not None:
+                exprs = calls_in(n.expr)
+            for call in reversed(exprs):  # inner calls first
+                cn = callee_name(call)
+                if cn is None:
+                    continue
+                args = call["inner"][1:]
+                if cn == "Fr_set_zero" or (cn == "vec_zero" and args and _md_path(g.r(args[0])) in st):
+                    setd(st, args[0], MD_Z)
+                elif cn == "Fr_set_limb" or cn == "limbs_from_be_bytes":
+                    if args and (cn == "Fr_set_limb" or _md_path(g.r(args[0])) in st or True):
+                        if cn == "Fr_set_limb" or re.search(r"Fr|digit|limb_t \*\)&", g.r(args[0])):
+                            setd(st, args[0], 0)
+                elif cn == "Fr_copy":
+                    d, _ = deg(st, args[1])
+                    setd(st, args[0], d if d is not None else MD_T)
+                elif cn in ("Fr_add", "Fr_sub"):
+                    da, pa = deg(st, args[1])
+                    db, pb = deg(st, args[2])
+                    if check:
+                        okk = da not in (None, MD_T) and db not in (None, MD_T) and (da == db or MD_Z in (da, db))
+                        need(okk, "%s/%s:%s,%s" % (fn, cn, pa, pb), n, "operands `%s` (degree %s) and `%s` (degree %s) of %s are in different representations (plain vs Montgomery)" % (pa, da, pb, db, cn))
+                    setd(st, args[0], _md_join(da, db) if None not in (da, db) else MD_T)
+                elif cn == "Fr_neg":
+                    d, _ = deg(st, args[1])
+                    setd(st, args[0], d if d is not None else MD_T)
+                elif cn == "Fr_mul_montg":
+                    da, _ = deg(st, args[1])
+                    db, _ = deg(st, args[2])
+                    if MD_Z in (da, db):
+                        r = MD_Z
+                    elif None in (da, db) or MD_T in (da, db):
+                        r = MD_T
+                    else:
+                        r = da + db - 1
+                    setd(st, args[0], r)
+                elif cn == "Fr_squ_montg":
+                    d, _ = deg(st, args[1])
+                    setd(st, args[0], shift(d, lambda k: 2 * k - 1))
+                elif cn == "Fr_to_montg":
+                    d, _ = deg(st, args[1])
+                    setd(st, args[0], shift(d, lambda k: k + 1))
+                elif cn == "Fr_from_montg":
+                    d, _ = deg(st, args[1])
+                    setd(st, args[0], shift(d, lambda k: k - 1))
+                elif cn == "Fr_inv_montg_eucl":
+                    d, _ = deg(st, args[1])
+                    setd(st, args[0], shift(d, lambda k: 1 - k))
+                elif cn == "Fr_is_equal":
+                    da, pa = deg(st, args[0])
+                    db, pb = deg(st, args[1])
+                    if check:
+                        okk = da not in (None, MD_T) and db not in (None, MD_T) and (da == db or MD_Z in (da, db))
+                        need(okk, "%s/Fr_is_equal:%s,%s" % (fn, pa, pb), n, "`%s` (degree %s) is compared with `%s` (degree %s): one is in Montgomery form and the other is not, so the comparison does not test equality of the scalars" % (pa, da, pb, db))
+                elif cn == "Fr_is_zero":
+                    pass
+                elif cn in MD_TRUSTED_OUT0:
+                    for i_ in MD_TRUSTED_OUT0[cn]:
+                        if i_ < len(args):
+                            setd(st, args[i_], 0)
+                else:
+                    # any other function handed an F_r object: plain form expected for inputs, plain form produced
+                    cps = c.p.params(cn) if cn in c.p.protos or cn in c.p.funcs else []
+                    for i_, a_ in enumerate(args):
+                        t_ = cps[i_]["type"]["qualType"] if i_ < len(cps) else ""
+                        is_fr = fr_ptr(t_) if t_ else False
+                        if cn == "pow256_from_Fr" and i_ == 1:
+                            is_fr = True
+                            t_ = "const Fr *"
+                        if not is_fr:
+                            continue
+                        d, pa = deg(st, a_)
+                        if t_.strip().startswith("const") or cn == "Fr_write_bytes":
+                            if check:
+                                need(d in (0, MD_Z), "%s/%s:arg%d:%s" % (fn, cn, i_, pa), n, "`%s` is handed to %s in degree %s: scalars leave the field arithmetic (serialisation, scalar multiplication, other glue functions) in plain form only" % (pa, cn, d))
+                        else:
+                            # what the callee leaves there: its own summary (static helpers may hand back Montgomery values)
+                            if cn in c.p.funcs and cn not in summaries:
+                                analyse(cn, False)
+                            setd(st, a_, summaries.get(cn, {}).get(i_, 0))
+            if n.kind == "decl" and n.tag and n.expr is not None:
+                # pointer local bound to an F_r object (`const Fr *term = x;`, `Fr *p = &a[i];`): it denotes that object
+                qt = (n.stmt or {}).get("type", {}).get("qualType", "") if isinstance(n.stmt, dict) else ""
+                if "Fr" in qt and "*" in qt and strip(n.expr).get("kind") != "CallExpr" and not any(x.get("kind") == "CallExpr" for x in walk(n.expr)):
+                    d, _ = deg(st, n.expr)
+                    st[n.tag] = d if d is not None else MD_T
+            return st
+
+        # fixpoint
+        order = list(g.nodes)
+        entry = [n for n in g.nodes if n.kind == "entry"]
+        state_in[entry[0].id] = dict(init)
+        work = [entry[0]]
+        it = 0
+        while work and it < 5000:
+            it += 1
+            n = work.pop(0)
+            sin = state_in.get(n.id, {})
+            sout = transfer(n, sin, False)
+            if state_out.get(n.id) == sout:
+                continue
+            state_out[n.id] = sout
+            for s_ in n.succ:
+                if s_ is None:
+                    continue
+                old = state_in.get(s_.id)
+                if old is None:
+                    new = dict(sout)
+                else:
+                    new = dict(old)
+                    for k_ in set(old) | set(sout):
+                        new[k_] = _md_join(old.get(k_), sout.get(k_))
+                if new != old:
+                    state_in[s_.id] = new
+                    work.append(s_)
+        for n in order:
+            if n.id in state_in:
+                transfer(n, state_in[n.id], True)
+        # outputs at exit: the summary callers use; functions visible outside the glue (non-static) hand back plain scalars
+        exits = [n for n in g.nodes if n.kind == "exit"]
+        summ = {}
+        if exits and exits[0].id in state_in:
+            st = state_in[exits[0].id]
+            names = [p_["name"] for p_ in params]
+            for o_ in outs:
+                d = st.get(o_)
+                if d is None:
+                    continue
+                summ[names.index(o_)] = d if d != MD_Z else 0
+                if fd.get("storageClass") != "static" and d != MD_T:
+                    need(d in (0, MD_Z), "%s/result:%s" % (fn, o_), exits[0], "result `%s` of %s is left in degree %s: callers (and the Go side) take it as a plain scalar" % (o_, fn, d))
+        summaries[fn] = summ
+        if not emit:
+            return
+        for key, (okk, pos, msg) in sorted(reports.items()):
+            n_ops += 1
+            c.check(okk, rule, key, pos, "representations agree", msg)
+    for fn in sorted(c.p.funcs):
+        analyse(fn, True)
+    if n_ops == 0:
+        c.und(rule, "montgomery/no-sites", "bls12381_utils.c", "no F_r operation found")
 
 # ------------------------------------------------------------------ C07.R5 (vector intake in C)
 
@@ -2238,8 +2707,101 @@ def rule_C09(c):
                     checked = True
             if not checked:
                 c.info("C09.R6", "%s/malloc-unchecked" % fn, c.pos(g, n), "malloc result not checked; accepted: allocation failure is outside the property's input quantifier")
+    # R12: scratch space whose size comes from the caller lives on the heap: no variable-length array and no alloca in the
+    # glue (cgo calls run on a fixed-size thread stack; a list of a few thousand entries would run past it)
+    c.floor("C09.R12", 1)
+    nvla = 0
+    for fn, fd in sorted(c.p.funcs.items()):
+        for e in walk(fd):
+            if e.get("kind") == "VarDecl":
+                qt = (e.get("type") or {}).get("qualType", "")
+                m = re.search(r"\[([^\]]*)\]", qt)
+                if m and m.group(1).strip() and not re.match(r"^[0-9]+$", m.group(1).strip()):
+                    nvla += 1
+                    c.viol("C09.R12", "%s/vla:%s" % (fn, e.get("name")), "%s:%s" % (c.p.where.get(fn, "?"), e.get("_line")),
+                           "`%s %s` is a variable-length array on the cgo thread stack: its size is decided by the caller, so a long enough input overruns the stack (crash instead of an error)" % (qt, e.get("name")))
+            if e.get("kind") == "CallExpr" and callee_name(e) in ("alloca", "__builtin_alloca"):
+                nvla += 1
+                c.viol("C09.R12", "%s/alloca" % fn, "%s:%s" % (c.p.where.get(fn, "?"), e.get("_line")), "alloca with a caller-controlled size on the cgo thread stack")
+    if nvla == 0:
+        c.ok("C09.R12", "glue/no-vla", "bls12381_utils.c", "no variable-length array or alloca in %d glue functions" % len(c.p.funcs))
     c.floor("X.table", 60)
     c.stats["contract_params_validated"] = rule_table(c, "X.table")
+
+
+# ------------------------------------------------------------------ reject provenance (C01.R11 / C02.R9 / C17.R6)
+
+BRANCH_OK = (
+    r"^\w*read_bytes\(.*\) (==|!=) \w+$",          # a reader's result
+    r"^\w*_in_G[12]\(.*\) (==|!=) 0$",              # subgroup membership
+    r"^map_to_G1\(.*\) (==|!=) \w+$",               # hash-to-curve
+    r"^Fp12_is_one\(.*\) (==|!=) 0$",                # the pairing product
+    r"^\(?\w+\)? (==|!=) (VALID|INVALID|0)$",       # a local holding one of those results, or an allocation
+    r"^[\w\[\]\.\->\(\) \+\-\*]+ (<|<=|>|>=) [\w\[\]\.\->\(\) \+\-\*]+$",  # loop bounds / sizes
+)
+
+
+def rule_reject_provenance(c, rule, fns):
+    """A verdict function decides on nothing but what the property names: whether the signature / proof bytes parse,
+    whether the point is in the subgroup, whether the hash can be mapped, whether the pairing product is one (plus allocation
+    results and loop bounds).  Every branch condition of the function — and of the code-returning glue helpers it calls,
+    which are checked the same way — is of one of these kinds.  Any other condition (an equality shortcut between proofs or
+    keys, a special case on infinity) makes the verdict differ from the verification equation for some inputs."""
+    seen = set()
+
+    def codes_fn(fn):
+        f = c.p.funcs.get(fn)
+        if f is None:
+            return False
+        rtype = (f.get("type", {}).get("qualType", "") or "").split("(")[0].strip()
+        return rtype in ("int", "ERROR")
+
+    def visit(fn, top):
+        if fn in seen:
+            return
+        seen.add(fn)
+        try:
+            g = c.p.cfg(fn)
+        except cast.Unsupported:
+            c.und(rule, fn + "/branches", "?", "CFG not available")
+            return
+        n_br, bad = 0, []
+        for n in g.nodes:
+            if n.kind != "branch" or n.expr is None:
+                continue
+            cond = g.norm(n.expr, True)
+            n_br += 1
+            ok = any(re.match(p_, cond) for p_ in BRANCH_OK)
+            if not ok:
+                # result of another code-returning glue helper: that helper is checked in turn
+                m = re.match(r"^(\w+)\(.*\) (==|!=) \w+$", cond)
+                if m and m.group(1) in c.p.funcs and codes_fn(m.group(1)) and not m.group(1).endswith("is_equal"):
+                    visit(m.group(1), top)
+                    ok = True
+            if not ok:
+                bad.append((cond, c.pos(g, n)))
+            for call in calls_in(n.expr):
+                cn = callee_name(call)
+                if cn in c.p.funcs and codes_fn(cn) and cn not in ("E1_read_bytes", "E2_read_bytes", "map_to_G1"):
+                    visit(cn, top)
+        for n in g.nodes:
+            if n.kind in ("stmt", "decl", "ret") and n.expr is not None:
+                for call in calls_in(n.expr):
+                    cn = callee_name(call)
+                    if cn in c.p.funcs and codes_fn(cn) and cn not in ("E1_read_bytes", "E2_read_bytes", "map_to_G1") and cn.startswith(("bls_", "read_", "batch_")):
+                        visit(cn, top)
+        key = "%s/decides-on" % fn if fn == top else "%s>%s/decides-on" % (top, fn)
+        if bad:
+            cond, pos = bad[0]
+            c.viol(rule, key, pos, "%s branches on `%s`, which is none of the property's causes (bytes that do not parse, a point outside the subgroup, an unmappable hash, a pairing product that is not one; allocation results and loop bounds aside): inputs satisfying the verification equation can get a different verdict" % (fn, cond))
+        else:
+            c.ok(rule, key, c.p.pos(g.f), "all %d branch conditions are parse / membership / mapping / pairing results, allocation checks or loop bounds" % n_br)
+
+    for fn in fns:
+        if fn not in c.p.funcs:
+            c.und(rule, "anchor:" + fn, "?", "unresolved anchor: C function %s" % fn)
+            continue
+        visit(fn, fn)
 
 
 def rule_C19(c):
@@ -2346,5 +2908,15 @@ def rule_C12(c):
     rule_object_extents(c, "C12.R5")
 
 
-RULES = {"C08": rule_C08, "C12": rule_C12, "C01": rule_C01, "C02": rule_C02, "C03": rule_C03, "C04": rule_C04, "C05": rule_C05, "C06": rule_C06,
+def rule_C16(c):
+    # R9: BLSVerifyPOP's verdict is bls_verify's: the candidate string is parsed by the validating reader, the parsed
+    # point itself is G1-checked, and only then paired (= C01.R1); INVALID only for the property's causes (= C01.R11)
+    c.floor("C16.R9", 3)
+    rule_sanitised(c, "C16.R9", "bls_verify", 1)
+    rule_pairing_core(c, "C16.R9")
+    c.floor("C16.R10", 2)
+    rule_reject_provenance(c, "C16.R10", ("bls_verify", "bls_verify_E1"))
+
+
+RULES = {"C16": rule_C16, "C08": rule_C08, "C12": rule_C12, "C01": rule_C01, "C02": rule_C02, "C03": rule_C03, "C04": rule_C04, "C05": rule_C05, "C06": rule_C06,
          "C07": rule_C07, "C09": rule_C09, "C17": rule_C17, "C19": rule_C19, "C20": rule_C20}
